@@ -203,7 +203,7 @@ class World:
         mod.__file__ = "<c12 generated>"
         sys.modules["c12_generated"] = mod
         try:
-            exec(compile(src, "<c12 generated>", "exec"), mod.__dict__)
+            exec(compile(src, "<c12 generated>", "exec", dont_inherit=True), mod.__dict__)
         except Exception as e:  # noqa: BLE001
             raise HarnessError(f"generated hierarchy does not define: {type(e).__name__}: {e}\n{src}") from None
         self.mod = mod
@@ -219,7 +219,7 @@ class World:
         src = render(self.h)
         body = src[src.index("@dataclass", src.index("class GFalsy")) :] if "class G0" in src else ""
         try:
-            exec(compile(body, "<c12 generated>", "exec"), self.mod.__dict__)
+            exec(compile((HEADER_POSTPONED if self.h["postponed"] else "") + body, "<c12 generated>", "exec", dont_inherit=True), self.mod.__dict__)
         except Exception as e:  # noqa: BLE001
             raise HarnessError(f"redefinition does not define: {type(e).__name__}: {e}\n{body}") from None
         self.src = src
